@@ -2418,16 +2418,18 @@ class sptensor:
 
         # TF+1 for logical consideration because 0 is valid index
         # and -1 is our null flag
-        idxa = np.logical_and(tf + 1, newvals)[0]
-        idxb = np.logical_and(tf + 1, np.logical_not(newvals))[0]
-        idxc = np.logical_and(np.logical_not(tf + 1), newvals)[0]
+        # newvals is a column: flatten so each subscript is paired with its own value
+        newvals_flat = newvals.reshape(-1)
+        idxa = np.logical_and(tf + 1, newvals_flat)
+        idxb = np.logical_and(tf + 1, np.logical_not(newvals_flat))
+        idxc = np.logical_and(np.logical_not(tf + 1), newvals_flat)
 
         # Process Group A: Changing values
         if np.sum(idxa) > 0:
             self.vals[tf[idxa]] = newvals[idxa]
         # Process Group B: Removing Values
         if np.sum(idxb) > 0:
-            removesubs = loc[idxb]
+            removesubs = tf[idxb]
             keepsubs = np.setdiff1d(range(0, self.nnz), removesubs)
             self.subs = self.subs[keepsubs, :]
             self.vals = self.vals[keepsubs]
